@@ -155,11 +155,13 @@ pub struct Gen {
     pub allow_defer_remap: bool,
     /// per-run probability that a compaction defers the index remap (swarm knob, C13 only)
     pub defer_rate: f64,
+    /// generated rows carry no NULL and no empty string (legacy file format runs: KF-26)
+    pub no_nulls: bool,
 }
 
 impl Gen {
     pub fn new() -> Self {
-        Self { next_k: 0, next_img: 1, opno: 0, next_col: 0, inexact_indices: true, exact_indices: true, allow_defer_remap: false, defer_rate: 0.2 }
+        Self { next_k: 0, next_img: 1, opno: 0, next_col: 0, inexact_indices: true, exact_indices: true, allow_defer_remap: false, defer_rate: 0.2, no_nulls: false }
     }
     pub fn fresh_rows(&mut self, rng: &mut Rng, cols: &[ColDef], n: usize) -> Vec<Row> {
         (0..n)
@@ -168,7 +170,23 @@ impl Gen {
                 self.next_k += 1;
                 let img = self.next_img;
                 self.next_img += 1;
-                cols.iter().map(|c| gen_val(rng, c, k, img)).collect()
+                let no_nulls = self.no_nulls;
+                cols.iter()
+                    .map(|c| {
+                        let v = gen_val(rng, c, k, img);
+                        if !no_nulls {
+                            return v;
+                        }
+                        match (&v, c.ty) {
+                            (Val::Null, Ty::I64 | Ty::I32) => Val::I(0),
+                            (Val::Null, Ty::F64) => Val::f(0.5),
+                            (Val::Null, Ty::Str) => Val::S("n".into()),
+                            (Val::Null, Ty::Bool) => Val::B(false),
+                            (Val::S(x), _) if x.is_empty() => Val::S("e".into()),
+                            _ => v,
+                        }
+                    })
+                    .collect()
             })
             .collect()
     }
@@ -483,14 +501,28 @@ impl Runner {
             Some("2.0") => LanceFileVersion::V2_0,
             Some("2.1") => LanceFileVersion::V2_1,
             Some("2.2") => LanceFileVersion::V2_2,
+            // the legacy format is exercised by the write/read round-trip check only
+            _ if cfg.prop == "C11" => *rng.pick(&[LanceFileVersion::Legacy, LanceFileVersion::V2_0, LanceFileVersion::V2_1, LanceFileVersion::V2_2]),
             _ => *rng.pick(&[LanceFileVersion::V2_0, LanceFileVersion::V2_0, LanceFileVersion::V2_1, LanceFileVersion::V2_2]),
         };
+        let mut legacy_no_nulls = false;
+        if cfg.prop == "C11" {
+            ctx.rows_per_group = *rng.pick(&[1024usize, 10, 7, 3, 2]);
+            res.knobs.insert("max_rows_per_group".into(), ctx.rows_per_group.to_string());
+            // the legacy format stores NULLs of fixed-width columns as 0 and cannot tell '' from
+            // NULL (KF-26): most legacy runs avoid both so that other defects stay visible
+            if ctx.storage_version == LanceFileVersion::Legacy {
+                legacy_no_nulls = rng.chance(0.85);
+                res.knobs.insert("legacy_rows_without_nulls".into(), legacy_no_nulls.to_string());
+            }
+        }
         res.knobs.insert("handler".into(), format!("{:?}", hk));
         res.knobs.insert("stable_row_ids".into(), ctx.stable_row_ids.to_string());
         res.knobs.insert("v2_paths".into(), ctx.v2_paths.to_string());
         res.knobs.insert("storage".into(), format!("{}", ctx.storage_version));
         res.knobs.insert("store".into(), format!("{:?}", knobs));
         let mut gen = Gen::new();
+        gen.no_nulls = legacy_no_nulls;
         // Known finding (scalar index + stable row ids + update returns stale matches, see
         // known_findings.jsonl): only the index checks themselves combine the two.
         if ctx.stable_row_ids && !matches!(cfg.prop.as_str(), "C19" | "C20") {
@@ -1236,6 +1268,13 @@ pub async fn run_seq(cfg: RunCfg) -> RunResult {
                     v.sig = format!("{}:after-recreate", v.sig);
                     v.prop = "C38".into();
                 }
+            }
+        }
+    }
+    if r.ctx.storage_version == LanceFileVersion::Legacy && !r.gen.no_nulls {
+        for v in r.res.violations.iter_mut() {
+            if !v.sig.ends_with(":legacy-nulls") {
+                v.sig = format!("{}:legacy-nulls", v.sig);
             }
         }
     }
